@@ -88,6 +88,7 @@ def lower_unit(u, outdir):
                 f.truncate_after = t['truncate_after']
             if t.get('skeleton'):
                 f.skeleton = True
+                f.skeleton_returns = t.get('skeleton_returns')
             if t.get('region_params'):
                 f.region_params = t['region_params']
             if t.get('keep_from_call'):
